@@ -14,10 +14,11 @@ enum Kind : int {
     HSend, HRecv, HPeek, HSet, HClear, HMask,       // host API
     DReply, DCmdRead, DReplyPeek, DSet, DAck, DMask, DSetCI, // DSP side through MMIO
     DStatusW,                                                 // a write to a (read-only) status register: no effect on any flag
+    HReenter, // from now on the host's semaphore handler calls back into the API: 1 acknowledge all, 2 mask all, 3 acknowledge v, 0 nothing
     NKIND
 };
 const char* kKindName[] = {"hsend", "hrecv", "hpeek", "hset", "hclear", "hmask",
-                           "dreply", "dcmdread", "dreplypeek", "dset", "dack", "dmask", "dsetci", "dstatusw"};
+                           "dreply", "dcmdread", "dreplypeek", "dset", "dack", "dmask", "dsetci", "dstatusw", "hreenter"};
 struct Op {
     int kind = HSend;
     uint16_t ch = 0;  // channel 0..2
@@ -43,8 +44,19 @@ struct Sys {
     Sys() {
         for (int i = 0; i < 3; ++i)
             t.SetRecvDataHandler(i, [this, i] { ++data_irq[i]; });
-        t.SetSemaphoreHandler([this] { ++sem_irq; });
+        t.SetSemaphoreHandler([this] {
+            ++sem_irq;
+            // a handler that services the semaphore right away, as host code does ("host callbacks may call back into the API")
+            if (sem_action == 1)
+                t.ClearSemaphore(0xFFFF);
+            else if (sem_action == 2)
+                t.MaskSemaphore(0xFFFF);
+            else if (sem_action == 3)
+                t.ClearSemaphore(sem_action_bits);
+        });
     }
+    int sem_action = 0;
+    uint16_t sem_action_bits = 0;
     void reinit() {
         t.Reset();
         // state that Reset() does not (yet) cover is cleared explicitly so that cases are independent
@@ -55,6 +67,7 @@ struct Sys {
         for (auto& d : data_irq)
             d = 0;
         sem_irq = 0;
+        sem_action = 0;
     }
     uint16_t rd(uint16_t off, uint16_t path) {
         switch (path % 3) {
@@ -116,14 +129,14 @@ rc::Gen<Op> genOp() {
                                               {2, gen::map(vf::range<int>(0, 16), [](int b) { return (uint16_t)(1u << b); })},
                                               {1, vf::u16b()}});
     auto kind = gen::weightedElement<int>({{4, HSend}, {2, HRecv}, {1, HPeek}, {3, HSet}, {3, HClear}, {3, HMask},
-                                           {4, DReply}, {2, DCmdRead}, {1, DReplyPeek}, {3, DSet}, {3, DAck}, {3, DMask}, {2, DSetCI}, {2, DStatusW}});
+                                           {4, DReply}, {2, DCmdRead}, {1, DReplyPeek}, {3, DSet}, {3, DAck}, {3, DMask}, {2, DSetCI}, {2, DStatusW}, {1, HReenter}});
     return gen::map(gen::tuple(kind, vf::range<int>(0, 3), bits, vf::u16b(), vf::range<int>(0, 96)),
                     [](std::tuple<int, int, uint16_t, uint16_t, int> t) {
                         Op op;
                         op.kind = std::get<0>(t);
                         op.ch = (uint16_t)std::get<1>(t);
                         bool is_bits = op.kind == HSet || op.kind == HClear || op.kind == HMask || op.kind == DSet || op.kind == DAck ||
-                                       op.kind == DMask || op.kind == DStatusW;
+                                       op.kind == DMask || op.kind == DStatusW || op.kind == HReenter;
                         op.v = is_bits ? std::get<2>(t) : std::get<3>(t);
                         if (op.kind == DSetCI)
                             op.v = std::get<3>(t) & 0x3104; // CI0 (8), CI1 (12), CI2 (13), END (2)
@@ -252,6 +265,11 @@ vf::Result check(const Case& cs) {
                 c2d.mask = op.v;
                 saw_sem = true;
                 break;
+            case HReenter:
+                s.sem_action = op.ch % 4;
+                s.sem_action_bits = op.v;
+                vf::klass("host semaphore handler re-enters the API");
+                break;
             case DStatusW: // the status flags are live views of the mailbox / semaphore state: writing them changes nothing
                 s.wr(op.ch & 1 ? 0x0D8 : 0x0D6, op.v, op.path);
                 vf::klass("write to a status register");
@@ -299,6 +317,16 @@ vf::Result check(const Case& cs) {
             return fail("C14:irq:missing:host-sem:" + nm, "host semaphore handler did not run although the signal flag rose", i);
         if (host_sem_forbidden && nsem != 0)
             return fail("C14:irq:spurious:host-sem:" + nm, "host semaphore handler ran although the signal flag stayed 0", i);
+        // what the re-entrant handler did, once per run (the rules above were judged on the state the operation itself produced)
+        if (nsem && s.sem_action) {
+            if (s.sem_action == 1)
+                d2c.sem = 0;
+            else if (s.sem_action == 2)
+                d2c.mask = 0xFFFF;
+            else
+                d2c.sem &= ~s.sem_action_bits;
+            vf::klass("handler re-entered: " + std::string(s.sem_action == 2 ? "mask all" : "acknowledge") + " during " + nm);
+        }
         // --- full observable state ----------------------------------------------------------
         uint16_t d6 = s.t.MMIORead(0x0D6), d8 = s.t.MMIORead(0x0D8);
         bool S = (d6 >> 9) & 1;
